@@ -1,6 +1,6 @@
 (* Proofs about the scheduler model: every well-formed trace accepted by the model satisfies the
    trace monitor (which transcribes property C15), and the Prop-level readings of the monitor. *)
-From Coq Require Import List NArith PeanoNat Bool Lia FinFun.
+From Coq Require Import List NArith PeanoNat Bool Lia FinFun Sorted.
 From Charon Require Import Flow.Scheduler.
 Import ListNotations.
 Local Open Scope N_scope.
@@ -1602,3 +1602,292 @@ Proof.
   intros H Hc. unfold gres, completes in *. destruct (r_vals rn) as [vals|]; [|reflexivity].
   destruct (filter (is_active (epoch_of spe slot)) vals); [discriminate|]. rewrite H. reflexivity.
 Qed.
+
+(* -- run-level facts: clock, ticker, retries -- *)
+
+Definition clock_after (t0 : N) (ls : list label) : N :=
+  fold_left (fun n l => match l with LAdv dt => n + dt | _ => n end) ls t0.
+
+Fixpoint last_tick (ls : list label) (acc : option N) : option N :=
+  match ls with
+  | [] => acc
+  | LTick t _ _ :: r => last_tick r (Some t)
+  | _ :: r => last_tick r acc
+  end.
+
+Lemma resolve_frame s slot r s' : resolve spe s slot r = Some s' -> expect s' = expect s /\ now s' = now s.
+Proof.
+  unfold resolve. intro H.
+  repeat match type of H with
+  | context [match ?x with _ => _ end] => destruct x
+  | context [if ?x then _ else _] => destruct x
+  end; try discriminate; injection H as <-; split; reflexivity.
+Qed.
+
+Lemma tick_loop_frame tys t s sc s' sc' outs :
+  tick_loop D spe tys t s sc = Some (s', sc', outs) -> expect s' = expect s /\ now s' = now s.
+Proof.
+  revert s sc s' sc' outs. induction tys as [|ty r IH]; intros s sc s' sc' outs H; simpl in H.
+  - injection H as <- _ _. split; reflexivity.
+  - destruct (fst (store s) (ty, t)); [apply (IH _ _ _ _ _ H)|].
+    destruct (last_in_epoch spe t).
+    + destruct sc as [|rn sc0]; [discriminate|].
+      destruct (resolve spe s (t + 1) rn) as [s1|] eqn:Er; [|discriminate].
+      destruct (tick_loop D spe r t s1 sc0) as [[[s2 sc2] o2]|] eqn:Et; [|discriminate].
+      injection H as <- _ _. apply resolve_frame in Er. apply IH in Et. destruct Er, Et. split; congruence.
+    + destruct (tick_loop D spe r t s sc) as [[[s2 sc2] o2]|] eqn:Et; [|discriminate].
+      injection H as <- _ _. apply (IH _ _ _ _ _ Et).
+Qed.
+
+Lemma sched_slot_frame s t sc s' sc' outs :
+  sched_slot D spe s t sc = Some (s', sc', outs) -> expect s' = expect s /\ now s' = now s.
+Proof.
+  unfold sched_slot. intro H. destruct (optN_is (resolved s) (epoch_of spe t)).
+  - apply (tick_loop_frame _ _ _ _ _ _ _ H).
+  - destruct sc as [|rn sc0]; [discriminate|].
+    destruct (resolve spe s t rn) as [s1|] eqn:Er; [|discriminate].
+    apply resolve_frame in Er. apply tick_loop_frame in H. destruct Er, H. split; congruence.
+Qed.
+
+Lemma tick_loop_not_last tys t s sc s' sc' outs :
+  last_in_epoch spe t = false -> tick_loop D spe tys t s sc = Some (s', sc', outs) -> sc' = sc.
+Proof.
+  intro Hl. revert s sc s' sc' outs. induction tys as [|ty r IH]; intros s sc s' sc' outs H; simpl in H.
+  - injection H as _ <- _. reflexivity.
+  - rewrite Hl in H. destruct (fst (store s) (ty, t)); [apply (IH _ _ _ _ _ H)|].
+    destruct (tick_loop D spe r t s sc) as [[[s2 sc2] o2]|] eqn:Et; [|discriminate].
+    injection H as _ <- _. apply (IH _ _ _ _ _ Et).
+Qed.
+
+Lemma run_app s a b : run D spe s (a ++ b) = match run D spe s a with Some s1 => run D spe s1 b | None => None end.
+Proof.
+  revert s. induction a as [|l r IH]; intro s; simpl; [reflexivity|].
+  destruct (step D spe s l); [apply IH | reflexivity].
+Qed.
+
+Lemma wf_trace_app a b : wf_trace spe (a ++ b) = wf_trace spe a && wf_trace spe b.
+Proof. unfold wf_trace. apply forallb_app. Qed.
+
+Lemma run_inv_from s g ls s' :
+  Inv spe s g -> wf_trace spe ls = true -> run D spe s ls = Some s' -> Inv spe s' (ghost_after D spe g ls).
+Proof.
+  revert s g. induction ls as [|l r IH]; intros s g HI Hwf H; simpl in *.
+  - injection H as <-. exact HI.
+  - apply andb_true_iff in Hwf. destruct Hwf as [Hwl Hwr].
+    destruct (step D spe s l) as [s1|] eqn:Es; [|discriminate].
+    destruct (step_sound D spe HD Hs s g l s1 HI Hwl Es) as [_ HI1]. apply (IH _ _ HI1 Hwr H).
+Qed.
+
+(* While the epoch of the tick is not the resolved one, every tick asks the beacon node again; once it
+   is, and the slot is not the last of its epoch, the beacon node is not asked at all. *)
+Theorem retry_until_resolved t0 ls s pre t sc outs post :
+  wf_trace spe ls = true -> run D spe (init D t0) ls = Some s -> ls = pre ++ LTick t sc outs :: post ->
+  (optN_is (g_resolved (ghost_after D spe (ginit t0) pre)) (epoch_of spe t) = false -> sc <> []) /\
+  (optN_is (g_resolved (ghost_after D spe (ginit t0) pre)) (epoch_of spe t) = true ->
+   last_in_epoch spe t = false -> sc = []).
+Proof.
+  intros Hwf H ->. rewrite wf_trace_app in Hwf. apply andb_true_iff in Hwf. destruct Hwf as [Hw1 _].
+  rewrite run_app in H. destruct (run D spe (init D t0) pre) as [s1|] eqn:E1; [|discriminate].
+  pose proof (run_inv_from _ _ _ _ (inv_init D spe t0) Hw1 E1) as [HS _].
+  cbn [run] in H. destruct (step D spe s1 (LTick t sc outs)) as [s2|] eqn:Est; [|discriminate]. clear H.
+  unfold step in Est. destruct (ticker_enabled D s1 && (t =? ticker_slot D s1)); [|discriminate].
+  destruct (sched_slot D spe _ t sc) as [[[s3 sc3] exp]|] eqn:Esch; [|discriminate].
+  destruct sc3; [|discriminate]. clear Est.
+  unfold sched_slot in Esch. cbn [resolved] in Esch. rewrite (sim_res _ _ _ _ HS) in Esch.
+  split.
+  - intros Hr ->. rewrite Hr in Esch. discriminate.
+  - intros Hr Hl. rewrite Hr in Esch.
+    apply (tick_loop_not_last _ _ _ _ _ _ _ Hl) in Esch. symmetry. exact Esch.
+Qed.
+
+Lemma ghost_now g ls : g_now (ghost_after D spe g ls) = clock_after (g_now g) ls.
+Proof.
+  revert g. induction ls as [|l r IH]; intro g; [reflexivity|]. simpl. rewrite IH. unfold clock_after. simpl.
+  f_equal. destruct l as [dt|t sc outs|ep|]; try reflexivity.
+  - destruct (gstep_tick_shape g t sc outs) as [m [_ [_ [_ A]]]]. exact A.
+  - simpl. destruct (g_resolved g); [destruct (ep <? n)|]; reflexivity.
+Qed.
+
+Lemma now_after_clock t0 pre : now_after t0 pre = clock_after t0 pre.
+Proof. unfold now_after. rewrite ghost_now. reflexivity. Qed.
+
+(* The slot ticker: slots strictly increase (it skips, never repeats), a slot is never delivered before
+   it starts, and at every quiescent point the most recent tick is the tick of the current slot. *)
+Record TInv (t0 : N) (pre : list label) (s : state) : Prop := {
+  ti_now : now s = clock_after t0 pre;
+  ti_ge : t0 <= now s;
+  ti_none : last_tick pre None = None -> expect s = t0 / D;
+  ti_some : forall t, last_tick pre None = Some t -> expect s = t + 1 /\ t * D <= now s;
+  ti_sorted : forall t, In t (tick_slots pre) -> t < expect s;
+  ti_ss : StronglySorted N.lt (tick_slots pre);
+  ti_lo : t0 / D <= expect s
+}.
+
+Lemma clock_after_snoc t0 pre l :
+  clock_after t0 (pre ++ [l]) = match l with LAdv dt => clock_after t0 pre + dt | _ => clock_after t0 pre end.
+Proof. unfold clock_after. rewrite fold_left_app. reflexivity. Qed.
+
+Lemma last_tick_snoc pre l acc :
+  last_tick (pre ++ [l]) acc = match l with LTick t _ _ => Some t | _ => last_tick pre acc end.
+Proof.
+  revert acc. induction pre as [|x r IH]; intro acc; simpl.
+  - destruct l; reflexivity.
+  - destruct x; apply IH.
+Qed.
+
+Lemma tick_slots_snoc pre l :
+  tick_slots (pre ++ [l]) = tick_slots pre ++ match l with LTick t _ _ => [t] | _ => [] end.
+Proof. unfold tick_slots. rewrite flat_map_app. simpl. rewrite app_nil_r. reflexivity. Qed.
+
+Lemma ss_snoc l x : StronglySorted N.lt l -> (forall y, In y l -> y < x) -> StronglySorted N.lt (l ++ [x]).
+Proof.
+  induction l as [|a r IH]; simpl; intros Hss Hlt; [repeat constructor|].
+  inversion Hss as [|? ? Hr Ha]; subst. constructor.
+  - apply IH; [exact Hr | intros y Hy; apply Hlt; right; exact Hy].
+  - apply Forall_app. split; [exact Ha | constructor; [apply Hlt; left; reflexivity | constructor]].
+Qed.
+
+Lemma tinv_step t0 pre s l s' : TInv t0 pre s -> step D spe s l = Some s' -> TInv t0 (pre ++ [l]) s'.
+Proof.
+  intros [I1 I2 I3 I4 I5 I6 I7] H. destruct l as [dt|t sc outs|ep|].
+  - simpl in H. injection H as <-. constructor; simpl; rewrite ?clock_after_snoc, ?last_tick_snoc, ?tick_slots_snoc, ?app_nil_r; try assumption; try lia.
+    intros t Ht. destruct (I4 t Ht). split; [assumption | lia].
+  - simpl in H. destruct (ticker_enabled D s && (t =? ticker_slot D s)) eqn:Een; [|discriminate].
+    apply andb_true_iff in Een. destruct Een as [Een Et]. apply N.eqb_eq in Et.
+    destruct (ticker_facts D spe HD Hs s t Een Et) as [Hge Hst].
+    destruct (sched_slot D spe _ t sc) as [[[s1 sc1] exp]|] eqn:Esch; [|discriminate].
+    destruct sc1; [|discriminate]. destruct (same_set trig_eqb outs exp); [|discriminate]. injection H as <-.
+    apply sched_slot_frame in Esch. simpl in Esch. destruct Esch as [E1 E2].
+    constructor; rewrite ?clock_after_snoc, ?last_tick_snoc, ?tick_slots_snoc; try congruence.
+    + intros t' Ht'. injection Ht' as <-. split; [exact E1 | congruence].
+    + intros t' Ht'. apply in_app_or in Ht'. rewrite E1. destruct Ht' as [Ht'|[<-|[]]]; [apply I5 in Ht'; lia | lia].
+    + apply ss_snoc; [exact I6|]. intros y Hy. apply I5 in Hy. lia.
+    + lia.
+  - assert (Hf : expect s' = expect s /\ now s' = now s).
+    { simpl in H. destruct (resolved s); [destruct (ep <? n)|]; injection H as <-; split; reflexivity. }
+    destruct Hf as [E1 E2].
+    constructor; rewrite ?clock_after_snoc, ?last_tick_snoc, ?tick_slots_snoc, ?app_nil_r, ?E1, ?E2; assumption.
+  - simpl in H. destruct (ticker_enabled D s); [discriminate|]. injection H as <-.
+    constructor; rewrite ?clock_after_snoc, ?last_tick_snoc, ?tick_slots_snoc, ?app_nil_r; assumption.
+Qed.
+
+Lemma tinv_init t0 : TInv t0 [] (init D t0).
+Proof.
+  constructor; simpl; try reflexivity; try lia; try (intros t H; discriminate); try (intros t []).
+  constructor.
+Qed.
+
+
+Lemma tinv_run t0 pre s ls s' : TInv t0 pre s -> run D spe s ls = Some s' -> TInv t0 (pre ++ ls) s'.
+Proof.
+  revert pre s. induction ls as [|l r IH]; intros pre s HI H; simpl in H.
+  - injection H as <-. rewrite app_nil_r. exact HI.
+  - destruct (step D spe s l) as [s1|] eqn:Es; [|discriminate].
+    replace (pre ++ l :: r) with ((pre ++ [l]) ++ r) by (rewrite <- app_assoc; reflexivity).
+    apply (IH _ s1); [apply (tinv_step _ _ s); assumption | exact H].
+Qed.
+
+Theorem ticker_monotone t0 ls s :
+  run D spe (init D t0) ls = Some s ->
+  StronglySorted N.lt (tick_slots ls) /\
+  (forall pre t sc outs post, ls = pre ++ LTick t sc outs :: post -> t * D <= clock_after t0 pre /\ t0 / D <= t).
+Proof.
+  intro H. split.
+  - apply (ti_ss t0 _ s). apply (tinv_run t0 [] (init D t0) ls s (tinv_init t0) H).
+  - intros pre t sc outs post ->. rewrite run_app in H.
+    destruct (run D spe (init D t0) pre) as [s1|] eqn:E1; [|discriminate].
+    pose proof (tinv_run t0 [] _ pre s1 (tinv_init t0) E1) as [I1 I2 I3 I4 I5 I6 I7]. simpl in *.
+    destruct (ticker_enabled D s1 && (t =? ticker_slot D s1)) eqn:Een; [|discriminate].
+    apply andb_true_iff in Een. destruct Een as [Een Et]. apply N.eqb_eq in Et.
+    destruct (ticker_facts D spe HD Hs s1 t Een Et) as [Hge Hst]. rewrite <- I1. split; [exact Hst | lia].
+Qed.
+
+(* At a quiescent point the most recent tick is the tick of the current slot: no due tick is missing. *)
+Theorem quiet_current_slot_ticked t0 ls s pre post :
+  run D spe (init D t0) ls = Some s -> ls = pre ++ LQuiet :: post ->
+  last_tick pre None = Some (clock_after t0 pre / D).
+Proof.
+  intros H ->. rewrite run_app in H.
+  destruct (run D spe (init D t0) pre) as [s1|] eqn:E1; [|discriminate].
+  pose proof (tinv_run t0 [] _ pre s1 (tinv_init t0) E1) as [I1 I2 I3 I4 I5 I6 I7]. simpl in *.
+  destruct (ticker_enabled D s1) eqn:Een; [discriminate|].
+  unfold ticker_enabled in Een. apply N.leb_gt in Een. rewrite <- I1.
+  destruct (last_tick pre None) as [t|] eqn:El.
+  - destruct (I4 t eq_refl) as [A B]. f_equal. symmetry. apply div_eq; [exact HD | exact B | rewrite <- A; exact Een].
+  - exfalso. rewrite (I3 eq_refl) in Een. pose proof (div_bounds t0 D HD). lia.
+Qed.
+
+End Readings.
+
+(* A failed validators call changes nothing at all in the scheduler's state. *)
+Theorem resolve_vals_error_noop spe s slot r s' : r_vals r = None -> resolve spe s slot r = Some s' -> s' = s.
+Proof.
+  intros Hv H. unfold resolve in H. rewrite Hv in H.
+  destruct (none_call (r_att r) && none_call (r_pro r) && none_call (r_sync r)); [|discriminate].
+  injection H as <-. reflexivity.
+Qed.
+
+(* ---- non-vacuity ---- *)
+
+(* Slots of 12 ns, 4 per epoch, two validators. Tick 0: the attester answer is accepted, the proposer
+   call fails; tick 1: retry, the beacon node now answers differently (validator 10 moved from slot 1 to
+   slot 3) -- the first definitions stay; ticks 2, 3; on slot 3 (last of the epoch) the next epoch is
+   resolved once per triggered duty type; a clock jump skips slots 4 and 5; a reorg event; tick 6
+   resolves again. *)
+Definition ex_vals := [V 10 100 true 0; V 11 101 true 0; V 12 102 false 9].
+Definition ex_trace : list label := [
+  LTick 0 [R (Some ex_vals) (Some (C 0 [11; 10] (Some [E 10 100 1 906; E 11 101 1 381]))) (Some (C 0 [10; 11] None)) None] [];
+  LQuiet; LAdv 12;
+  LTick 1 [R (Some ex_vals) (Some (C 0 [10; 11] (Some [E 11 101 2 684; E 10 100 3 9; E 70 9070 3 1])))
+             (Some (C 0 [10; 11] (Some [E 10 100 3 0]))) (Some (C 0 [10; 11] (Some [E 11 101 0 456])))]
+          [T Attester 1 [(101, E 11 101 1 381); (100, E 10 100 1 906)] (Some 16);
+           T Aggregator 1 [(100, E 10 100 1 906); (101, E 11 101 1 381)] (Some 20);
+           T SyncContribution 1 [(101, E 11 101 0 456)] (Some 20)];
+  LQuiet; LAdv 12;
+  LTick 2 [] [T Attester 2 [(101, E 11 101 2 684)] (Some 28); T Aggregator 2 [(101, E 11 101 2 684)] (Some 32);
+              T SyncContribution 2 [(101, E 11 101 0 456)] (Some 32)];
+  LQuiet; LAdv 12;
+  LTick 3 [R (Some ex_vals) (Some (C 1 [10; 11] (Some [E 10 100 6 5]))) (Some (C 1 [10; 11] (Some []))) (Some (C 1 [10; 11] (Some [])));
+           R None None None None;
+           R (Some ex_vals) (Some (C 1 [10; 11] None)) None None;
+           R (Some ex_vals) (Some (C 1 [10; 11] (Some [E 10 100 6 5]))) (Some (C 1 [10; 11] (Some []))) (Some (C 1 [10; 11] (Some [])))]
+          [T Proposer 3 [(100, E 10 100 3 0)] None; T Attester 3 [(100, E 10 100 3 9)] (Some 40);
+           T Aggregator 3 [(100, E 10 100 3 9)] (Some 44); T SyncContribution 3 [(101, E 11 101 0 456)] (Some 44)];
+  LQuiet; LAdv 30; LReorg 0;
+  LTick 5 [R (Some ex_vals) (Some (C 1 [10; 11] (Some [E 10 100 6 77]))) (Some (C 1 [10; 11] (Some []))) (Some (C 1 [10; 11] (Some [])))] [];
+  LQuiet; LAdv 6;
+  LTick 6 [] [T Attester 6 [(100, E 10 100 6 77)] (Some 76); T Aggregator 6 [(100, E 10 100 6 77)] (Some 80)];
+  LQuiet ].
+
+Example ex_trace_accepted :
+  (exists s, run 12 4 (init 12 0) ex_trace = Some s) /\ wf_trace 4 ex_trace = true /\ monitor 12 4 0 ex_trace = true.
+Proof. split; [eexists; vm_compute; reflexivity | split; vm_compute; reflexivity]. Qed.
+
+(* Dropping the retry's first-wins rule, duplicating a trigger, or triggering with another deadline
+   is rejected by the monitor. *)
+Example ex_duplicate_rejected :
+  monitor 12 4 0 (ex_trace ++ [LAdv 1; LTick 6 [] [T Attester 6 [(100, E 10 100 6 77)] (Some 76)]]) = false.
+Proof. vm_compute. reflexivity. Qed.
+
+Example ex_overwrite_rejected :
+  monitor 12 4 0 [LTick 0 [R (Some ex_vals) (Some (C 0 [11; 10] (Some [E 10 100 1 906; E 11 101 1 381]))) (Some (C 0 [10; 11] None)) None] [];
+                  LAdv 12;
+                  LTick 1 [R (Some ex_vals) (Some (C 0 [10; 11] (Some [E 10 100 1 5]))) (Some (C 0 [10; 11] (Some []))) (Some (C 0 [10; 11] (Some [])))]
+                          [T Attester 1 [(100, E 10 100 1 5); (101, E 11 101 1 381)] (Some 16);
+                           T Aggregator 1 [(100, E 10 100 1 5); (101, E 11 101 1 381)] (Some 20)]] = false.
+Proof. vm_compute. reflexivity. Qed.
+
+(* Outside the input domain (an attester answer for epoch 0 naming a slot of epoch 3) the code, as
+   modelled, drops a duty: the definition is filed under dutiesByEpoch[0]; resolving epoch 3 keeps it
+   (first wins) and then trims epoch 0, which deletes the whole duty; slot 13 is never triggered. *)
+Definition off_epoch_trace : list label := [
+  LTick 0 [R (Some [V 10 100 true 0]) (Some (C 0 [10] (Some [E 10 100 13 5]))) (Some (C 0 [10] (Some []))) (Some (C 0 [10] (Some [])))] [];
+  LAdv 144;
+  LTick 12 [R (Some [V 10 100 true 0]) (Some (C 3 [10] (Some [E 10 100 13 7]))) (Some (C 3 [10] (Some []))) (Some (C 3 [10] (Some [])))] [];
+  LAdv 12;
+  LTick 13 [] [] ].
+
+Example off_epoch_answer_drops_duty :
+  (exists s, run 12 4 (init 12 0) off_epoch_trace = Some s) /\ wf_trace 4 off_epoch_trace = false
+  /\ monitor 12 4 0 off_epoch_trace = false.
+Proof. split; [eexists; vm_compute; reflexivity | split; vm_compute; reflexivity]. Qed.
